@@ -21,7 +21,7 @@ FUNCTIONS = [('hio.core.tcp.clienting', 'Client.service'), ('hio.core.tcp.client
              ('hio.core.tcp.serving', 'Server.serviceSendsAllIx'), ('hio.core.tcp.serving', 'Server.serviceReceivesIx'), ('hio.core.tcp.serving', 'Remoter.send'),
              ('hio.core.tcp.serving', 'Remoter.receive'), ('hio.core.tcp.serving', 'RemoterTls.send'), ('hio.core.tcp.serving', 'RemoterTls.receive'),
              ('hio.core.tcp.serving', 'RemoterTls.handshake'), ('hio.core.tcp.serving', 'ServerTls.serviceCxes')]
-BOUNDS = {'quick': dict(calls=2, budget_s=120, audit_max=6), 'thorough': dict(calls=3, budget_s=600, audit_max=20)}
+BOUNDS = {'quick': dict(calls=2, budget_s=120, audit_max=6), 'thorough': dict(calls=6, budget_s=600, audit_max=20)}
 OUTSIDE = ['errnos outside the property set (they are meant to be re-raised)', 'real kernel RST timing / real OpenSSL', 'more than one fault per run', 'faults on the listen socket']
 STUBS = ['FakeNet sockets with a fault-injecting send/recv policy; FakeCtx/FakeTLSSock handshake scripts; after a fault the descriptor reports ENOTCONN on getpeername']
 ASSUMPTIONS = ['an OSError raised by the kernel carries the errno as args[0] and .errno; SSLEOFError carries SSL_ERROR_EOF (8) there']
